@@ -70,6 +70,57 @@ func luaTypeCode(v LVal) int64 {
 	return 5
 }
 
+// luaFromGo converts a gopher-lua LValue built by Go code that ran from its SSA (lua.LBool / LNumber / LString
+// conversions, lua.LNil, tables from CreateTable) into the interpreter's value.
+func (ex *Exec) luaFromGo(v Value, li *luaInterp) LVal {
+	iv, ok := v.(IfaceV)
+	if !ok {
+		ex.unsupported(fmt.Sprintf("Go value of type %T where a lua.LValue is expected", v))
+	}
+	if iv.t == nil {
+		// a nil LValue interface: gopher-lua would dereference it; the repository's code never produces one
+		ex.unsupported("nil lua.LValue interface handed to Lua")
+	}
+	t := iv.t
+	if p, ok := t.(*types.Pointer); ok {
+		t = p.Elem()
+	}
+	switch namedPath(t) {
+	case "github.com/yuin/gopher-lua.LBool":
+		return LBoolV{asTerm(iv.v)}
+	case "github.com/yuin/gopher-lua.LString":
+		return LStrV{asTerm(iv.v)}
+	case "github.com/yuin/gopher-lua.LNumber":
+		switch x := iv.v.(type) {
+		case FloatV:
+			if it, ok := x.intTerm(); ok {
+				return LNumV{it}
+			}
+			ex.unsupported("non-integral float passed to Lua")
+		case *Term:
+			return LNumV{x}
+		}
+	case "github.com/yuin/gopher-lua.LNilType":
+		return LNilV{}
+	case "github.com/yuin/gopher-lua.LTable":
+		if p, ok := iv.v.(PtrV); ok && p.c != nil {
+			if nv, ok := p.c.val.(NativeV); ok {
+				if tb, ok := nv.v.(*LTableV); ok {
+					return tb
+				}
+			}
+		}
+	case "":
+		if nv, ok := iv.v.(NativeV); ok {
+			if box, ok := nv.v.(luaValueBox); ok {
+				return box.v
+			}
+		}
+	}
+	ex.unsupported("lua.LValue of dynamic type " + iv.t.String() + " handed to Lua")
+	return nil
+}
+
 // goToLua converts a generic Go value (as produced by ToUnstructured / json decoding into interface{}) to Lua.
 func (ex *Exec) goToLua(v Value, li *luaInterp) LVal {
 	switch x := v.(type) {
@@ -369,7 +420,28 @@ func init() {
 		}
 		ex.h.funcs[luaSourceName(script.s)]++
 		li := &luaInterp{ex: ex}
-		obj := ex.goToLua(ex.load(objP.c.subs[0]), li)
+		// the object is handed to the script by the repository's own decodeValue, executed from its SSA (the
+		// gopher-lua table constructors it calls are the boundary: CreateTable / Append / RawSet*); only when the
+		// function is gone (renamed) does the value model's mirror stand in
+		var obj LVal
+		dec := fn.Pkg.Func("decodeValue")
+		if os.Getenv("VERIF_DEBUG_LUA") != "" {
+			fmt.Fprintf(os.Stderr, "RunLuaScript: pkg=%v dec=%v\n", fn.Pkg, dec)
+		}
+		if dec != nil && dec.Signature.Params().Len() == 2 {
+			saved := ex.luaLI
+			ex.luaLI = li
+			content := ex.load(objP.c.subs[0])
+			var arg Value = IfaceV{}
+			if mv, ok := content.(MapV); ok && mv.m != nil {
+				arg = IfaceV{t: objP.c.subs[0].typ, v: mv}
+			}
+			res := ex.callFunction(dec, []Value{PtrV{}, arg}, nil)
+			ex.luaLI = saved
+			obj = ex.luaFromGo(res, li)
+		} else {
+			obj = ex.goToLua(ex.load(objP.c.subs[0]), li)
+		}
 		ret, errMsg := ex.runLua(script.s, obj)
 		if errMsg != "" {
 			return TupleV{PtrV{}, ex.newError(mkStr(errMsg))}
@@ -395,6 +467,77 @@ func init() {
 		return IfaceV{t: types.Typ[types.UnsafePointer], v: NativeV{luaValueBox{v}}}
 	})
 	add("(*github.com/yuin/gopher-lua.LState).Close", icZero)
+	// gopher-lua table construction from Go (used by luamanager.decodeValue, which runs from its SSA)
+	luaTableOf := func(ex *Exec, fr *frame, v Value, pos tokenPos) *LTableV {
+		p, ok := v.(PtrV)
+		if !ok || p.c == nil {
+			ex.raise(fr, pos, "nil pointer dereference (*lua.LTable)")
+		}
+		nv, ok := p.c.val.(NativeV)
+		if !ok {
+			ex.unsupported("*lua.LTable not created by LState.CreateTable")
+		}
+		return nv.v.(*LTableV)
+	}
+	luaLI := func(ex *Exec) *luaInterp {
+		if ex.luaLI == nil {
+			ex.luaLI = &luaInterp{ex: ex}
+		}
+		return ex.luaLI
+	}
+	newTable := func(ex *Exec, fr *frame, fn *ssa.Function, args []Value, pos tokenPos) Value {
+		c := ex.newCell(types.Typ[types.Int])
+		c.val = NativeV{luaLI(ex).newTable()}
+		return PtrV{c}
+	}
+	// pure predicates of gopher-lua's value.go, decided on the interpreter's value
+	add("github.com/yuin/gopher-lua.LVIsFalse", func(ex *Exec, fr *frame, fn *ssa.Function, args []Value, pos tokenPos) Value {
+		switch x := ex.luaFromGo(args[0], luaLI(ex)).(type) {
+		case LNilV:
+			return tTrue
+		case LBoolV:
+			return mkNot(x.t)
+		}
+		return tFalse
+	})
+	add("github.com/yuin/gopher-lua.LVAsBool", func(ex *Exec, fr *frame, fn *ssa.Function, args []Value, pos tokenPos) Value {
+		switch x := ex.luaFromGo(args[0], luaLI(ex)).(type) {
+		case LNilV:
+			return tFalse
+		case LBoolV:
+			return x.t
+		}
+		return tTrue
+	})
+	add("(*github.com/yuin/gopher-lua.LState).CreateTable", newTable)
+	add("(*github.com/yuin/gopher-lua.LState).NewTable", newTable)
+	add("(*github.com/yuin/gopher-lua.LTable).Append", func(ex *Exec, fr *frame, fn *ssa.Function, args []Value, pos tokenPos) Value {
+		t := luaTableOf(ex, fr, args[0], pos)
+		li := luaLI(ex)
+		v := ex.luaFromGo(args[1], li)
+		if _, isNil := v.(LNilV); isNil {
+			return nil
+		}
+		li.rawSet(t, LNumV{mkInt(li.length(t) + 1)}, v)
+		return nil
+	})
+	rawSet := func(key func(ex *Exec, v Value, li *luaInterp) LVal) interceptFn {
+		return func(ex *Exec, fr *frame, fn *ssa.Function, args []Value, pos tokenPos) Value {
+			t := luaTableOf(ex, fr, args[0], pos)
+			li := luaLI(ex)
+			k := key(ex, args[1], li)
+			if _, isNil := k.(LNilV); isNil {
+				ex.raise(fr, pos, "table index is nil")
+			}
+			li.rawSet(t, k, ex.luaFromGo(args[2], li))
+			return nil
+		}
+	}
+	lvKey := func(ex *Exec, v Value, li *luaInterp) LVal { return ex.luaFromGo(v, li) }
+	add("(*github.com/yuin/gopher-lua.LTable).RawSetH", rawSet(lvKey))
+	add("(*github.com/yuin/gopher-lua.LTable).RawSet", rawSet(lvKey))
+	add("(*github.com/yuin/gopher-lua.LTable).RawSetString", rawSet(func(ex *Exec, v Value, li *luaInterp) LVal { return LStrV{asTerm(v)} }))
+	add("(*github.com/yuin/gopher-lua.LTable).RawSetInt", rawSet(func(ex *Exec, v Value, li *luaInterp) LVal { return LNumV{asTerm(v)} }))
 	add("github.com/evanphx/json-patch.CreateMergePatch", func(ex *Exec, fr *frame, fn *ssa.Function, args []Value, pos tokenPos) Value {
 		// RFC 7386 difference of two documents.  When both are JSON tokens of the value model the patch is computed on
 		// their trees (changed / added members with the new value, removed members as null, recursively for
